@@ -43,8 +43,12 @@ type Contract struct {
 	Ensures  []*Clause
 	Pure     bool
 	Opaque   bool
+	Propagates bool
 	Inline   bool
 	Trusted  bool
+	PropProps []string
+	ErrIgnorable *Clause // when true (over the results) the caller may drop the returned error
+	ParamNames []string // optional positional parameter names given in the contract header
 	Assigns  []string
 	HasAssigns bool
 	Loops    map[int]*LoopSpec
@@ -65,8 +69,17 @@ type Pred struct {
 	Body   string // raw spec text ("" for ghost functions)
 	GoBody string
 	Ghost  bool
+	Abstract bool
+	Reads    []string // heap keys an abstract predicate depends on
 	File   string
 	Line   int
+}
+
+type Reveal struct {
+	Pkg    string // package in which the definition is visible
+	Target string // pkg.Name of the abstract predicate
+	Params string
+	Clause *Clause
 }
 
 type TypeInv struct {
@@ -83,16 +96,19 @@ type ContractSet struct {
 	Lemmas   []*Contract
 	TypeInvs []*TypeInv
 	ValuePtr map[string]bool // type keys passed by value-result
+	Immutable map[string]bool // heap keys (F:pkg.Type.Field) that never change after construction
 	Axioms   []*Clause
+	Reveals  []*Reveal
+	Stale    []string // contracts whose function no longer exists
 	Files    map[string]string // pkg short -> file path used
 	Sources  []string          // provenance notes
 }
 
 var clauseKeywords = map[string]bool{
-	"func": true, "props": true, "requires": true, "ensures": true, "pure": true, "opaque": true, "inline": true,
+	"func": true, "props": true, "requires": true, "ensures": true, "pure": true, "opaque": true, "propagates": true, "errignorable": true, "inline": true,
 	"trusted": true, "assigns": true, "loop": true, "maprange": true, "panics": true, "at": true,
-	"pred": true, "ghost": true, "lemma": true, "typeinv": true, "axiom": true, "valueptr": true,
-	"note": true, "end": true,
+	"pred": true, "ghost": true, "abstract": true, "reveal": true, "reads": true, "lemma": true, "typeinv": true, "axiom": true, "valueptr": true,
+	"note": true, "end": true, "immutable": true,
 }
 
 var kwRe = regexp.MustCompile(`^([a-z]+)(@[A-Za-z0-9,:_\-]+)?(\s|$)`)
@@ -108,7 +124,7 @@ var pkgDirs = map[string]string{
 const contractFileName = "zz_contracts_verif.go"
 
 func loadContracts(repo, mirror string) (*ContractSet, error) {
-	cs := &ContractSet{Funcs: map[string]*Contract{}, ValuePtr: map[string]bool{}, Files: map[string]string{}}
+	cs := &ContractSet{Funcs: map[string]*Contract{}, ValuePtr: map[string]bool{}, Immutable: map[string]bool{}, Files: map[string]string{}}
 	var dirs []string
 	for d := range pkgDirs {
 		dirs = append(dirs, d)
@@ -150,6 +166,7 @@ func (cs *ContractSet) parseFile(pkg, file, text string) error {
 	var cur *Contract
 	var last *string // continuation target
 	var lastClause *Clause
+	var lastReads *Pred
 	finishClause := func() {
 		last = nil
 		lastClause = nil
@@ -199,7 +216,14 @@ func (cs *ContractSet) parseFile(pkg, file, text string) error {
 		}
 		switch kw {
 		case "func":
-			cur = &Contract{Pkg: pkg, FuncName: rest, Key: pkg + "." + rest, Loops: map[int]*LoopSpec{}, MapRange: map[int]string{}, File: file, Line: ln}
+			var pnames []string
+			if op := strings.Index(rest, "("); op >= 0 && strings.HasSuffix(rest, ")") {
+				for _, n := range strings.Split(rest[op+1:len(rest)-1], ",") {
+					pnames = append(pnames, strings.TrimSpace(n))
+				}
+				rest = strings.TrimSpace(rest[:op])
+			}
+			cur = &Contract{Pkg: pkg, FuncName: rest, Key: pkg + "." + rest, ParamNames: pnames, Loops: map[int]*LoopSpec{}, MapRange: map[int]string{}, File: file, Line: ln}
 			if _, dup := cs.Funcs[cur.Key]; dup {
 				return fmt.Errorf("%s:%d: duplicate contract for %s", file, ln, cur.Key)
 			}
@@ -232,6 +256,11 @@ func (cs *ContractSet) parseFile(pkg, file, text string) error {
 			cur.Pure = true
 		case "opaque":
 			cur.Opaque = true
+		case "errignorable":
+			cur.ErrIgnorable = mk("errignorable")
+		case "propagates":
+			cur.Propagates = true
+			cur.PropProps = props
 		case "inline":
 			cur.Inline = true
 		case "trusted":
@@ -305,8 +334,24 @@ func (cs *ContractSet) parseFile(pkg, file, text string) error {
 			c := mk("assert")
 			c.At = f[1]
 			cur.Asserts = append(cur.Asserts, c)
-		case "pred", "ghost":
-			// pred name(params) ret = body      |   ghost name(params) ret
+		case "reveal":
+			// reveal pkg.Name(params) = body     (definition of an abstract predicate, visible in this package only)
+			op := strings.Index(rest, "(")
+			cl := -1
+			if op >= 0 {
+				cl = matchParen(rest, op)
+			}
+			e := strings.Index(rest, "=")
+			if op < 0 || cl < 0 || e < cl {
+				return fmt.Errorf("%s:%d: malformed reveal", file, ln)
+			}
+			rv := &Reveal{Pkg: pkg, Target: strings.TrimSpace(rest[:op]), Params: rest[op+1 : cl]}
+			rest = strings.TrimSpace(rest[e+1:])
+			rv.Clause = mk("reveal")
+			cs.Reveals = append(cs.Reveals, rv)
+			cur = nil
+		case "pred", "ghost", "abstract":
+			// pred name(params) ret = body      |   ghost name(params) ret   |   abstract name(params) ret reads K1 K2 ...
 			op := strings.Index(rest, "(")
 			if op < 0 {
 				return fmt.Errorf("%s:%d: malformed %s", file, ln, kw)
@@ -315,7 +360,7 @@ func (cs *ContractSet) parseFile(pkg, file, text string) error {
 			if cl < 0 {
 				return fmt.Errorf("%s:%d: unbalanced parameter list", file, ln)
 			}
-			p := &Pred{Pkg: pkg, Name: strings.TrimSpace(rest[:op]), Params: rest[op+1 : cl], Ghost: kw == "ghost", File: file, Line: ln}
+			p := &Pred{Pkg: pkg, Name: strings.TrimSpace(rest[:op]), Params: rest[op+1 : cl], Ghost: kw == "ghost" || kw == "abstract", Abstract: kw == "abstract", File: file, Line: ln}
 			tail := strings.TrimSpace(rest[cl+1:])
 			if kw == "pred" {
 				e := strings.Index(tail, "=")
@@ -325,6 +370,14 @@ func (cs *ContractSet) parseFile(pkg, file, text string) error {
 				p.Ret = strings.TrimSpace(tail[:e])
 				p.Body = strings.TrimSpace(tail[e+1:])
 				last = &p.Body
+			} else if kw == "abstract" {
+				f := strings.Fields(tail)
+				if len(f) < 2 || f[1] != "reads" {
+					return fmt.Errorf("%s:%d: malformed abstract predicate (want: abstract name(params) bool reads K1 K2 ...)", file, ln)
+				}
+				p.Ret = f[0]
+				p.Reads = f[2:]
+				lastReads = p
 			} else {
 				p.Ret = tail
 			}
@@ -343,6 +396,21 @@ func (cs *ContractSet) parseFile(pkg, file, text string) error {
 			ti.Clause = mk("typeinv")
 			cs.TypeInvs = append(cs.TypeInvs, ti)
 			cur = nil
+		case "immutable":
+			// immutable Type Field1 Field2 ...
+			f := strings.Fields(rest)
+			if len(f) < 2 {
+				return fmt.Errorf("%s:%d: malformed immutable clause", file, ln)
+			}
+			for _, fld := range f[1:] {
+				cs.Immutable["F:"+pkg+"."+f[0]+"."+fld] = true
+			}
+			cur = nil
+		case "reads":
+			if lastReads == nil {
+				return fmt.Errorf("%s:%d: reads without abstract predicate", file, ln)
+			}
+			lastReads.Reads = append(lastReads.Reads, strings.Fields(rest)...)
 		case "valueptr":
 			for _, f := range strings.Fields(rest) {
 				cs.ValuePtr[f] = true
